@@ -872,6 +872,29 @@ def _replay_join(unit_name, inp):
                 return {"failed": True, "detail": f"events are not in chronological order: expected sources "
                                                   f"{want} (by date, time, run index, given order), found "
                                                   f"{[t for _, t in sorted(got)]}; inputs {meta}"}
+            # time / frame continuity and index
+            import datetime
+
+            def secs(t):
+                d, tm, ri, n = meta[t]
+                dt = datetime.datetime.strptime(d + tm[:8], "%Y-%m-%d%H:%M:%S")
+                return dt.timestamp() + (float(tm[8:]) if len(tm) > 8 else 0.0)
+            t0 = secs(want[0])
+            exp_time = np.concatenate([datas[t]["time"] + (secs(t) - t0) for t in want])
+            exp_frame = np.concatenate([datas[t]["frame"].astype(np.int64) + int(round((secs(t) - t0) * 100.0))
+                                        for t in want])
+            with h5py.File(out) as h5:
+                got_frame = h5["events/frame"][:].astype(np.int64)
+                got_index = h5["events/index"][:]
+            if not np.allclose(got_time, exp_time):
+                return {"failed": True, "detail": f"time is not continued by the acquisition offsets w.r.t. the "
+                                                  f"first input: got {got_time.tolist()}, expected "
+                                                  f"{exp_time.tolist()}; inputs {meta}"}
+            if not np.array_equal(got_frame, exp_frame):
+                return {"failed": True, "detail": f"frame offsets wrong: got {got_frame.tolist()}, expected "
+                                                  f"{exp_frame.tolist()}; inputs {meta}"}
+            if not np.array_equal(got_index, np.arange(1, len(got_index) + 1)):
+                return {"failed": True, "detail": f"index is not 1..N: {got_index.tolist()}"}
             return {"failed": False, "detail": f"join order {want} as specified; features {feats_out}"}
     finally:
         w.version, e.version = old_w, old_e
@@ -883,6 +906,9 @@ def _replay_split(inp):
 
 def bounded_inputs(unit_name, rng):
     if unit_name.startswith("join"):
+        yield {"date_a": "2020-01-01", "date_b": "2020-01-01", "date_c": "2020-01-01",
+               "time_a": "12:00:00", "time_b": "12:00:07", "time_c": "12:00:19", "runindex_a": 1,
+               "runindex_b": 2, "runindex_c": 3, "N_a": 2, "N_b": 3, "N_c": 2}
         for ta, tb in (("12:00:00", "12:00:00.5"), ("12:00:00.5", "12:00:00"), ("12:00:01", "12:00:00"),
                        ("12:00:00", "12:00:00")):
             for ra, rb in ((1, 1), (2, 1), (10, 2)):
